@@ -117,34 +117,70 @@ class Check:
         return outs
 
     # ------------------------------------------------------- trace validation
-    def validate(self, module, cfg_kwargs, trace_files, tags=('CLAUSE', 'DRIFT', 'CONSUMED'), timeout=3600, heap='8g', workers=2, name=None):
-        '''TLC validates all trace files (concatenated) in one process; measured here: several
-        JVMs in parallel or many workers are slower than one process with two workers.
-        returns dict tag -> rows'''
+    def validate(self, module, cfg_kwargs, trace_files, tags=('CLAUSE', 'DRIFT', 'CONSUMED'), timeout=7200, heap='12g', workers=2, name=None, max_bytes=350 * 1024 * 1024):
+        '''TLC validates all trace files; they are concatenated into groups of at most max_bytes (TLC's Json module
+        deserialises a whole file into memory) and each group is validated by one TLC process (measured here: several
+        JVMs in parallel or many workers are slower than one process with two workers).  returns dict tag -> rows'''
         name = name or module.replace('.tla', '')
         cfg = os.path.join(self.work, f'{name}.trace.cfg')
         tlc.write_cfg(cfg, **cfg_kwargs)
         rows = {t: [] for t in tags}
-        allf = os.path.join(self.work, f'{name}.all.ndjson')
-        with open(allf, 'wb') as out:
-            for fn in trace_files:
+        groups, cur, size = [], [], 0
+        for fn in trace_files:
+            sz = os.path.getsize(fn)
+            if sz > max_bytes:
+                # split one oversized shard by lines
+                part, psz, k = [], 0, 0
                 with open(fn, 'rb') as f:
-                    shutil.copyfileobj(f, out)
-        res = tlc.run(module, cfg, workers=workers, env={'TRACE_FILE': allf}, timeout=timeout, heap=heap)
-        if res.timed_out or not res.ok:
-            with open(os.path.join(self.work, f'{name}.trace.out'), 'wt') as f:
-                f.write(res.out)
-            raise Machinery(f'trace validation {name} failed: {res.error or res.violated or "timeout"} (see {self.work}/{name}.trace.out)')
-        cons = tlc.printed(res, 'CONSUMED')
-        if not cons or cons[-1][1] != cons[-1][2]:
-            raise Machinery(f'trace validation {name}: not all lines consumed: {cons}')
-        self.trace_lines += cons[-1][1]
-        self.states += res.distinct
-        self.transitions += res.generated
-        for t in tags:
-            for r in tlc.printed(res, t):
-                rows[t].append(r)
-        self.note(f'validated {cons[-1][1]} trace lines with {module} in {res.wall:.1f}s: ' + ', '.join(f'{t}={len(v)}' for t, v in rows.items()))
+                    for ln in f:
+                        if psz + len(ln) > max_bytes and part:
+                            pfn = f'{fn}.part{k}'
+                            with open(pfn, 'wb') as o:
+                                o.writelines(part)
+                            groups.append([pfn])
+                            part, psz, k = [], 0, k + 1
+                        part.append(ln)
+                        psz += len(ln)
+                if part:
+                    pfn = f'{fn}.part{k}'
+                    with open(pfn, 'wb') as o:
+                        o.writelines(part)
+                    groups.append([pfn])
+                continue
+            if cur and size + sz > max_bytes:
+                groups.append(cur)
+                cur, size = [], 0
+            cur.append(fn)
+            size += sz
+        if cur:
+            groups.append(cur)
+        total_lines = 0
+        wall = 0.0
+        for gi, group in enumerate(groups):
+            allf = os.path.join(self.work, f'{name}.all{gi}.ndjson')
+            with open(allf, 'wb') as out:
+                for fn in group:
+                    with open(fn, 'rb') as f:
+                        shutil.copyfileobj(f, out)
+            res = tlc.run(module, cfg, workers=workers, env={'TRACE_FILE': allf}, timeout=timeout, heap=heap)
+            wall += res.wall
+            if res.timed_out or not res.ok:
+                with open(os.path.join(self.work, f'{name}.trace.out'), 'wt') as f:
+                    f.write(res.out)
+                raise Machinery(f'trace validation {name} failed: {res.error or res.violated or "timeout"} (see {self.work}/{name}.trace.out)')
+            cons = tlc.printed(res, 'CONSUMED')
+            if not cons or cons[-1][1] != cons[-1][2]:
+                raise Machinery(f'trace validation {name}: not all lines consumed: {cons}')
+            total_lines += cons[-1][1]
+            self.states += res.distinct
+            self.transitions += res.generated
+            for t in tags:
+                for r in tlc.printed(res, t):
+                    rows[t].append(r)
+            if len(groups) > 1:
+                os.remove(allf)
+        self.trace_lines += total_lines
+        self.note(f'validated {total_lines} trace lines with {module} in {wall:.1f}s ({len(groups)} TLC run(s)): ' + ', '.join(f'{t}={len(v)}' for t, v in rows.items()))
         return rows
 
     # -------------------------------------------------------------- verdicts
